@@ -116,4 +116,41 @@ end
 /-- `(write d)` -/
 def write (d : Datum) : Text := writeAt 0 d
 
+/-! ### the mechanism as it is in the Rust: one mutable nesting counter
+
+`format_with_cycles` does `self.depth += 1` on entry, prints `...` (after undoing the increment) when the
+counter exceeds 128, and does `self.depth -= 1` after the `match`.  `writeSt d depth` returns the text and
+the value of the counter afterwards; siblings are printed one after the other with the counter threaded
+through.  `write_depth_balanced` (Props) shows that the counter comes back to its value, which is why the
+functional `writeAt` above (depth as a parameter) describes the same writer. -/
+
+/-- leave one call of `format_with_cycles`: the `...` branch or the `self.depth -= 1` at the end -/
+def leaveSt (depth : Nat) (body : Text × Nat) : Text × Nat :=
+  if depth + 1 > 128 then (t!"...", depth + 1 - 1) else (body.1, body.2 - 1)
+
+mutual
+/-- `format_with_cycles` with the counter: `depth` before the call ↦ (text, counter after the call) -/
+def writeSt : Datum → Nat → Text × Nat
+  | .int i, dep => leaveSt dep (writeInt i, dep + 1)
+  | .rat n d, dep => leaveSt dep (writeInt n ++ '/' :: decDigits d, dep + 1)
+  | .bool b, dep => leaveSt dep (if b then t!"#true" else t!"#false", dep + 1)
+  | .chr c, dep => leaveSt dep (writeChar c, dep + 1)
+  | .str s, dep => leaveSt dep (writeStr s, dep + 1)
+  | .sym s, dep => leaveSt dep (s, dep + 1)
+  | .list xs, dep => leaveSt dep ('(' :: ((writeSeqSt xs (dep + 1)).1 ++ [')']), (writeSeqSt xs (dep + 1)).2)
+  | .pair a d, dep =>
+    leaveSt dep ('(' :: ((writeSt a (dep + 1)).1 ++ ' ' :: '.' :: ' ' ::
+        ((writeSt d (writeSt a (dep + 1)).2).1 ++ [')'])), (writeSt d (writeSt a (dep + 1)).2).2)
+  | .vec xs, dep => leaveSt dep ('#' :: '(' :: ((writeSeqSt xs (dep + 1)).1 ++ [')']), (writeSeqSt xs (dep + 1)).2)
+  | .bytes bs, dep => leaveSt dep ('#' :: 'u' :: '8' :: '(' :: (writeBytes bs ++ [')']), dep + 1)
+  | .flo r, dep => leaveSt dep (writeReal r, dep + 1)
+  | .other w, dep => leaveSt dep (w, dep + 1)
+/-- the elements of a list / vector, the counter threaded from one element to the next -/
+def writeSeqSt : List Datum → Nat → Text × Nat
+  | [], dep => ([], dep)
+  | [x], dep => writeSt x dep
+  | x :: y :: r, dep =>
+    ((writeSt x dep).1 ++ ' ' :: (writeSeqSt (y :: r) (writeSt x dep).2).1, (writeSeqSt (y :: r) (writeSt x dep).2).2)
+end
+
 end SteelVerif.C12
